@@ -48,6 +48,8 @@ inductive DOp where
   | raiseRun (sig : Nat) (exit : Nat)
   /-- an interactive shell runs a built-in that never finishes; batches of signals arrive -/
   | blocked (batches : List (List Nat))
+  /-- the `trap` built-in itself: `trap ACTION COND…` (origin = position of the operation) -/
+  | trapCmd (a : Action) (conds : List String) (origin : Nat)
 
 def parseOp (k : Nat) (t : String) : Option DOp :=
   match words t with
@@ -67,6 +69,12 @@ def parseOp (k : Nat) (t : String) : Option DOp :=
     let n ← parseSig s
     if n = SIGKILL ∨ n = SIGSTOP then none else pure (.op (.deliver n))
   | ["run", n] => do pure (.runTraps (← n.toNat?))
+  | ["tr", a, cs] => do
+    let act ← parseAction a
+    let names := cs.splitOn ","
+    -- names of the watched conditions only (the harness knows no others)
+    let _ ← names.mapM parseCond
+    pure (.trapCmd act names k)
   | ["blk", b] => do
     let batches ← (b.splitOn "/").mapM fun x => (x.splitOn "+").mapM parseSig
     -- the last batch, and only it, contains INT; KILL/STOP cannot be sent
@@ -146,6 +154,18 @@ def blockable (st : State) : Bool :=
 /-- of a batch sent to the process, what the system reports: the signals with `Catch` installed -/
 def reported (st : State) (batch : List Nat) : List Nat := batch.filter fun s => (polledBy st s).contains s
 
+/-- the operands of `trap` for an action of the case language (the command text only matters
+    through `cmdOf`, which the driver fixes to the number of the action) -/
+def trapOperands (a : Action) (names : List String) : List String × (String → Nat) :=
+  match a with
+  | .default => ("-" :: names, fun _ => 0)
+  | .ignore => ("" :: names, fun _ => 0)
+  | .command c => ("cmd" :: names, fun _ => c)
+
+def runTrapCmd (st : State) (a : Action) (names : List String) (origin : Nat) : TrapResult :=
+  let (ops, cmdOf) := trapOperands a names
+  trapMain cmdOf st origin false false ops
+
 def opResult (st : State) : DOp → String
   | .op (.setAction c a o ov) => showErr (setAction st c a o ov).2
   | .op (.peek c) => showTS (peekState st c).2
@@ -167,6 +187,9 @@ def opResult (st : State) : DOp → String
     if blockable st then
       if (interruptedBuiltin st.traps (batches.map (reported st))).2 then "int386" else "hang"
     else "n/a"
+  | .trapCmd a names origin =>
+    let r := runTrapCmd st a names origin
+    s!"st{r.status}"
   | .raiseRun sig e =>
     let r := runTrapsAfterPoll body7 false (polledBy st sig) st.traps e
     let runs := r.runs.map fun (s, c) => s!"{condName s}:{c}@{e}"
@@ -182,6 +205,7 @@ def dstep (st : State) : DOp → State
     if blockable st then
       { st with traps := (interruptedBuiltin st.traps (batches.map (reported st))).1 }
     else st
+  | .trapCmd a names origin => (runTrapCmd st a names origin).st
 
 /-- Spec verdict for a `run`: the bodies run followed by the bodies still pending are exactly the
     bodies that were pending, once each (whatever the bodies end in); `$?` is preserved, except that
@@ -193,6 +217,21 @@ def runVerdict (st : State) (e : Nat) : Option String :=
   else if r.exit ≠ (match r.divert with | some (.interrupt (some x)) => x | _ => (e : Int)) then some "exit-status"
   else if r.divert = none ∧ pendingCommands r.traps ≠ [] then some "left-pending"
   else none
+
+/-- Spec verdict for one `trap ACTION COND…` command (no KILL/STOP among the conditions): every
+    listed condition holds, afterwards, what `trapCommandExpect` says — ignored on entry: still
+    `{Ignore, Inherited}`; every other one: the action, wherever it stands in the list -/
+def trapVerdict (st st' : State) (a : Action) (names : List String) (origin : Nat) : Option String :=
+  let conds := names.filterMap parseCond
+  if conds.contains SIGKILL || conds.contains SIGSTOP || conds.length ≠ names.length then none else
+  names.findSome? fun n =>
+    match parseCond n with
+    | none => none
+    | some c =>
+      let want := trapCommandExpect st c a origin false
+      match (getState st'.traps c).1 with
+      | some ts => if ts.action = want.1 ∧ ts.origin = want.2 then none else some s!"skipped:{n}"
+      | none => some s!"skipped:{n}"
 
 def parseInit (t : String) : Option (List Nat) :=
   match words t with
@@ -234,6 +273,7 @@ def opsLine (line : String) : String :=
             | none =>
               match op with
               | .runTraps e => (runVerdict st e).map fun w => s!"FAIL:{w}@{k}"
+              | .trapCmd a names origin => (trapVerdict st st' a names origin).map fun w => s!"FAIL:{w}@{k}"
               | _ => none
         go st' vs' rest (k + 1) (" ".intercalate (s!"r={r}" :: d) :: obs) v
     let st0 := State.init init
@@ -547,7 +587,7 @@ def tbLineRun (line : String) : String :=
     | ("tb" :: r) :: rest => if r.isEmpty then rest else r :: rest
     | p => p
   let (ign, parts) := match parts with
-    | ("ign" :: sigs) :: rest => (sigs.filterMap parseSig, rest)
+    | ("ign" :: sigs) :: rest => (sigs.filterMap parseAnySig, rest)
     | p => ([], p)
   let init : Nat → Disp := fun s => if ign.contains s then .ignore else .default
   let rec go (s : TB) (l : List (List String)) (k : Nat) : Option TB :=
